@@ -1125,6 +1125,9 @@ impl Scenario for Flow {
                     }
                 }
                 "stray" => {
+                    if op.has("matrix") {
+                        ex.st.inc("enumerated_stray_position_kind_runs");
+                    }
                     // harness-made packet, not produced by the sender
                     let kind = match op.get_u("kind") % 4 {
                         0 => Kind::Complete,
@@ -1930,7 +1933,15 @@ pub mod gen {
 
     fn gen_c07(rng: &mut Rng, idx: u64) -> Program {
         // the first runs enumerate every merge of the small shapes (8 stray/size variations each)
-        let forced: Option<(Vec<usize>, Vec<usize>)> = if idx < SMALL_MERGES * 8 {
+        // after the 8 sampled variants of every small merge: the stray position x kind x (aliasing or not) matrix of
+        // every small merge, one stray per run (8 positions x 4 kinds x 2 = 64 runs per merge)
+        let matrix: Option<(usize, u64, bool)> = if idx >= SMALL_MERGES * 8 && idx < SMALL_MERGES * 72 {
+            let v = (idx - SMALL_MERGES * 8) / SMALL_MERGES;
+            Some(((v % 8) as usize, (v / 8) % 4, v / 32 == 1))
+        } else {
+            None
+        };
+        let forced: Option<(Vec<usize>, Vec<usize>)> = if idx < SMALL_MERGES * 72 {
             let mut m = idx % SMALL_MERGES;
             let mut r = None;
             for sh in SMALL_SHAPES.iter() {
@@ -2003,9 +2014,20 @@ pub mod gen {
         let mut claimed = false;
         while left.iter().any(|l| *l > 0) {
             // stray injection
-            if rng.chance(1, 4) {
-                let kind = rng.below(4);
-                let sfid = match rng.below(3) {
+            let do_stray = match matrix {
+                Some((pos, _, _)) => step == pos,
+                None => rng.chance(1, 4),
+            };
+            if do_stray {
+                let kind = match matrix {
+                    Some((_, k, _)) => k,
+                    None => rng.below(4),
+                };
+                let sfid = match match matrix {
+                    Some((_, _, true)) => 0,
+                    Some(_) => 1,
+                    None => rng.below(3),
+                } {
                     0 => {
                         // aliasing an open slot with a different id
                         let s = rng.below(used_fids.len() as u64) as usize;
@@ -2018,10 +2040,14 @@ pub mod gen {
                     }
                     _ => rng.below(256) as u8,
                 };
-                let allow_claim = rng.chance(1, 8);
+                let allow_claim = rng.chance(1, 8) || matrix.is_some();
                 if !used_fids.contains(&sfid) && (kind != 1 || allow_claim || !used_fids.iter().any(|u| *u as usize % slots == sfid as usize % slots)) {
                     let lab = label(rng, false);
-                    ops.push(Op::new("stray").u("kind", kind).u("fid", sfid as u64).u("len", rng.range(1, 40)).u("seed", rng.next()).h("lab", lab.enc()).u("total", rng.range(0, 300)).u("crc", rng.next() & 0xFFFF_FFFF));
+                    let mut o = Op::new("stray").u("kind", kind).u("fid", sfid as u64).u("len", rng.range(1, 40)).u("seed", rng.next()).h("lab", lab.enc()).u("total", rng.range(0, 300)).u("crc", rng.next() & 0xFFFF_FFFF);
+                    if matrix.is_some() {
+                        o = o.u("matrix", 1);
+                    }
+                    ops.push(o);
                 }
             }
             // restart: a new PDU on the id of a stream in flight (the sender abandons the old PDU)
